@@ -224,7 +224,9 @@ def build_optimized_pattern(choices: list[ChoiceChoice], repeat: str = "") -> st
         match choice:
             case UnicodePropertyRule(expression=RegexExpression(pattern=pattern)):
                 unicode_props.append(pattern)
-            case ChoiceLiteral(value=val, case=ChoiceCase.INSENSITIVE) if len(val) == 1:
+            case ChoiceLiteral(value=val, case=ChoiceCase.INSENSITIVE) if (
+                len(val) == 1 and len(val.upper()) == 1 and len(val.lower()) == 1
+            ):
                 char_class_parts.append(val.upper())
                 char_class_parts.append(val.lower())
             case ChoiceLiteral(value=val, case=ChoiceCase.INSENSITIVE):
